@@ -42,6 +42,7 @@ pub fn all() -> Vec<Regression> {
         Regression { name: "D24-event-located-by-function-value", property: "C08", what: "g = 1e-6*(t-c) with c 1e-9 past a step end must be located at c (not at the step end)", f: d24 },
         Regression { name: "D24-event-located-by-function-value-count", property: "C09", what: "g = 1e-6*(t-c): exactly one event within 2e-11 of c", f: d24 },
         Regression { name: "D25-brent-leaves-bracket", property: "C08", what: "backward DOP853 with a long first step: every event of cos(3t) must lie inside the span", f: d25 },
+        Regression { name: "D27-radau-slow-newton-fallthrough", property: "C14", what: "Radau on Van der Pol mu=100, [0,200], rtol=0.1: final error must stay at tolerance scale (was 3.4)", f: d27 },
         Regression { name: "D16-rk4-dense-order", property: "C07", what: "RK4 cubic Hermite dense output must be O(h^4) inside a step", f: d16 },
     ]
 }
@@ -517,6 +518,37 @@ fn d25() -> Result<(), String> {
         if *t > 0.0 || *t < -2.5 {
             return Err(format!("event reported at t={:e}, outside [0,-2.5]: {:?}", t, s.t_events[0]));
         }
+    }
+    Ok(())
+}
+
+fn d27() -> Result<(), String> {
+    let p = crate::problems::Prob {
+        name: "vdp100".into(),
+        n: 2,
+        f: std::sync::Arc::new(|_t, y, d| {
+            d[0] = y[1];
+            d[1] = 100.0 * (1.0 - y[0] * y[0]) * y[1] - y[0];
+        }),
+        jac: Some(std::sync::Arc::new(|_t, y| vec![0.0, 1.0, -200.0 * y[0] * y[1] - 1.0, 100.0 * (1.0 - y[0] * y[0])])),
+        flow: None,
+        y0: vec![2.0, 0.0],
+        linear_homogeneous: false,
+    };
+    let mut cr = Cfg::new(Method::RADAU, 0.0, 200.0, &p.y0).tol(1e-11, 1e-14);
+    cr.user_jac = true;
+    let rr = run(&p, &cr);
+    let yref = sol_of(&rr)?.y.last().unwrap().clone();
+    let mut c = Cfg::new(Method::RADAU, 0.0, 200.0, &p.y0).tol(0.1, 1e-4);
+    c.user_jac = true;
+    let r = run(&p, &c);
+    let s = sol_of(&r)?;
+    let e = (s.y.last().unwrap()[0] - yref[0]).abs();
+    if s.naccpt + s.nrejct > s.nstep + 1 {
+        return Err(format!("naccpt={} + nrejct={} exceeds nstep={}: attempts counted twice", s.naccpt, s.nrejct, s.nstep));
+    }
+    if e > 0.05 {
+        return Err(format!("final error {:e} with rtol=0.1 (solution amplitude 2)", e));
     }
     Ok(())
 }
